@@ -5,6 +5,7 @@ import QF.Drv.Ryu
 import QF.Drv.Like
 import QF.Drv.Sql
 import QF.Drv.GrpAdv
+import QF.Drv.JsonSweep
 /-
 qfdriver: replays a harness transcript (stdin) through the Lean model and spec.
 Output: one line per mismatch
@@ -78,6 +79,9 @@ partial def loop (h : IO.FS.Stream) (st : DState) (lineNo : Nat) : IO DState := 
       loop h st (lineNo + 1)
     | "quote" =>
       let st ← emit st lineNo (quoteLine toks)
+      loop h st (lineNo + 1)
+    | "jsonsweep" =>
+      let st ← emit st lineNo (jsonSweepLine toks)
       loop h st (lineNo + 1)
     | "ryu" =>
       let st ← emit st lineNo (ryuLine toks)
